@@ -217,6 +217,14 @@ def blocking_entry_points(run: lib.Run):
                     (src.inload if where == "load" else src.inetag).wait(WATCHDOG / 2)
                     if action == "stop":
                         r.stop(timeout=0.2)
+                    elif action == "stop, then start":
+                        r.stop(timeout=0.2)
+                        r.start()
+                    elif action == "stop twice, then check_and_reload":
+                        r.stop(timeout=0.1)
+                        r.stop(timeout=0.1)
+                        src.block = src.block_etag = False
+                        r.check_and_reload(force=True)
                     elif action == "diagnostics":
                         _ = (r.last_etag, r.last_error, r.suppressed_until) if hasattr(r, "last_etag") else None
                     else:
@@ -227,7 +235,7 @@ def blocking_entry_points(run: lib.Run):
                     r.stop(timeout=1.0)
             return f
         for where in ("load", "etag"):
-            for action in ("stop", "diagnostics", "start"):
+            for action in ("stop", "diagnostics", "start", "stop, then start", "stop twice, then check_and_reload"):
                 probes[f"HotReloader {action} while the poller is stuck inside source.{where}()"] = stuck_source(where, action)
         for name, fn in probes.items():
             ok, res = with_watchdog(fn, ctx)
